@@ -13,14 +13,14 @@ CHECKS = {
              'derived_observable calls (autograd, num_grad, man_grad, array_mode), complex arithmetic and ndarray operands over related '
              'layouts (config subsets of a common grid, missing replicas, several ensembles, shared covariance inputs). Every node is compared '
              'in value, every per-configuration fluctuation, replica means and covariance gradients with an independent dictionary-based '
-             'reference of first-order propagation. Sampling, not proof.',
+             'reference of first-order propagation. Sampling, not proof. Round 7: functions of magnitude 1e-9..1e-30 on the num_grad path (tolerance in units of |f|).',
         note='Trusts vlib/refobs.py (40 lines, written from the property text) and the analytic derivative table (self-checked by finite differences).'),
     'C02': dict(
         technique='property-based testing (Hypothesis): differential test of gamma_method against a loop-based reference Gamma method (ref_gamma)',
         level='exploration', design='DESIGN.md 4/C02, 3.3',
         text='Generated multi-ensemble / multi-replica observables with contiguous, strided and irregular configuration lists and four data kinds; '
              'S, tau_exp, N_sigma from argument, dictionary or global default; fft on/off. All e_* results, dvalue and ddvalue are compared to 1e-9 with '
-             'a reference implementation written from the papers; exact ties of the window criterion are skipped and counted.',
+             'a reference implementation written from the papers; exact ties of the window criterion are skipped and counted. Round 7: S down to 1e-200 (decision margin relative where both terms are small), many short replicas so that the criterion never turns negative.',
         note='Trusts vlib/refgamma.py; conventions the papers leave open (largest admissible lag, truncation of the drho sum) follow the documentation.'),
 }
 
@@ -30,14 +30,14 @@ CHECKS['C03'] = dict(
     text='Metamorphic relations on generated observables (fft on/off, i->a*i+b per ensemble, replica/ensemble renaming and argument permutation, '
          'shift, scale over 36 decades) plus a traced rule-based state machine whose model holds the class dictionaries and global defaults: after every '
          'gamma_method call the data are bit-identical, the results equal the stateless reference analysis with the model\'s effective parameters, a '
-         'repeated call is bit-identical, and arithmetic on analysed objects equals arithmetic on rebuilt never-analysed copies.',
+         'repeated call is bit-identical, and arithmetic on analysed objects equals arithmetic on rebuilt never-analysed copies. Round 7: sub-property derive (25 operations on analysed vs never-analysed copies: identical data and identical analysis state), replica labels with further separators.',
     note='Uses ref_gamma both as tie detector and as the stateless analysis in the history model; window ties are skipped and counted.')
 CHECKS['C04'] = dict(
     technique='property-based testing (Hypothesis): RuleBasedStateMachine with a structural invariant checked on every returned object; generated closure table and malformed requests',
     level='exploration', design='DESIGN.md 4/C04',
     text='Operation histories (constructors, arithmetic with Obs/CObs/int/float/complex/ndarray in both orders, elementary functions, reweight, correlate, '
          'merge_obs, json/dobs/pickle/jackknife round trips, fits, roots) with the well-formedness predicate evaluated after every step; a generated closure '
-         'table for + - * / ** over operand kinds; 17 kinds of malformed construction requests that must raise.',
+         'table for + - * / ** over operand kinds; 17 kinds of malformed construction requests that must raise. Round 7: numpy scalars (float32, int64, complex64, complex128) and float / complex arrays as operand kinds of the closure table; mildly indefinite covariance matrices must be refused.',
     note='The predicate (vlib/wellformed.py) is a transcription of the statement; exceptions of non-arithmetic operations inside histories are counted, not judged.')
 
 CHECKS['C05'] = dict(
@@ -45,7 +45,7 @@ CHECKS['C05'] = dict(
     level='exploration', design='DESIGN.md 4/C05',
     text='Weights on 1-3 replicas and observables on generated subsets (prefix, window, stride, mask) of their configurations and replicas; reweight (function, '
          'method, Corr), correlate (function, Corr with Obs / Corr), merge_obs over replica partitions, qtop_projection; expected value, every fluctuation, '
-         'replica means and the reweighted flag are computed by configuration number; 11 kinds of un-alignable requests must raise.',
+         'replica means and the reweighted flag are computed by configuration number; 11 kinds of un-alignable requests must raise. Round 7: equally long configuration lists at numbers 1e5..1e9 that differ in one entry must be refused by correlate.',
     note='Trusts RefObs.combine for the first-order ratio <w o>/<w>.')
 
 CHECKS['C13'] = dict(
@@ -61,7 +61,7 @@ CHECKS['C06'] = dict(
     level='exploration', design='DESIGN.md 4/C06',
     text='Lists of 2-8 analysed observables (1-3 ensembles x 1-3 replicas, identical / nested / overlapping / disjoint lists, shared covariance inputs, derived entries, '
          'per-entry analysis parameters): symmetry, diag = dvalue^2, unit diagonal, bounds, zero blocks, cov(perm) = P cov P^T; single-chain Pearson identity and PSD from '
-         'spec-level fluctuations; J Sigma J^T for external inputs; invert_corr_cov_cholesky, sort_corr, smoothing (trace and eigenvalue rule), error_band = sqrt(g^T C g).',
+         'spec-level fluctuations; J Sigma J^T for external inputs; invert_corr_cov_cholesky, sort_corr, smoothing (trace and eigenvalue rule), error_band = sqrt(g^T C g). Round 7: Cholesky-based inverse on eigenvalue-smoothed correlation matrices.',
     note='Off-diagonal values for multi-replica / multi-ensemble observables are only constrained by the predicates the statement lists.')
 CHECKS['C09'] = dict(
     technique='property-based testing (Hypothesis): closed-form inverse / antiderivative oracles through RefObs.combine; differential test against scipy.integrate.quad',
@@ -75,7 +75,7 @@ CHECKS['C10'] = dict(
     level='exploration', design='DESIGN.md 4/C10',
     text='matmul (2-4 factors, real/complex/mixed with plain numbers), inv, cholesky, det, eigh/eigv, eig, pinv, svd on well-conditioned 1x1..4x4 (rectangular) matrices with '
          'entries on different layouts; identities checked in value, every fluctuation and covariance gradient without using pyerrors arithmetic; jack_matmul / einsum against a '
-         'per-sample numpy jackknife and an explicit O(1/N) bound to the exact product. Operand matrices in C / Fortran / transposed-view / slice layouts; the same array objects refilled between two jackknife products; complex Cholesky declined or correct.',
+         'per-sample numpy jackknife and an explicit O(1/N) bound to the exact product. Operand matrices in C / Fortran / transposed-view / slice layouts; the same array objects refilled between two jackknife products; complex Cholesky declined or correct. Round 7: chained jackknife products (operands that came out of jack_matmul / einsum), value equal to the exact product at rounding level.',
     note='Complex input only where the library documents it (matmul, inv).')
 CHECKS['C11'] = dict(
     technique='property-based testing (Hypothesis): round trips through every json transport with attribute-level comparison, jsonschema validation of every emitted document',
@@ -104,33 +104,33 @@ CHECKS['C16'] = dict(
     level='exploration', design='DESIGN.md 4/C16',
     text='G(t) = Z^T diag(a_n(t)) Z with N=2-5, T=8-24, t0<=T/3, exact exponentials / crossing tables / random positive matrices, Obs entries with exact mean on 1-2 replicas, '
          'symmetric and non-symmetric input, undefined slices: eigen-equation for all t>t0, ordering, eigh vs cholesky, Eigenvector sorting consistent over time, Eigenvalue() = exp(-E_n(t-t0)), '
-         'prune keeps the lowest energies, matrix pencil returns the exact energies.',
+         'prune keeps the lowest energies, matrix pencil returns the exact energies. Round 7: matrix pencil on closely spaced spectra, judged with an analytic first-order sensitivity bound.',
     note='Direction / eigenvalue comparisons only where an a-priori rounding bound is below 1e-6.')
 CHECKS['C17'] = dict(
     technique='property-based testing (Hypothesis): synthetic file sets written by independent format writers (byte-exact against the repository\'s sample files) vs reader output; injected directory-listing orders',
     level='exploration', design='DESIGN.md 4/C17',
     text='openQCD rwms 1.4/1.6/2.0, ms.dat flow (energy density, t0/w0, qtop), sfqcd gfms (qtop, coupling), ms5_xsf, sfcf separate / compact / appended, Hadrons hdf5 mesons; 1-3 replicas with '
          'differing digit counts, 5-40 configurations, arbitrary first configuration and spacing, all selection keywords, sorted / reversed / shuffled listings (os.walk / os.listdir proxied as seen by '
-         'the readers) and distractor files; names, configuration numbers and per-configuration numbers must equal the stored ones after the documented reduction. In a quarter of the cases the same paths first hold another data set that is read (state between calls).',
+         'the readers) and distractor files; names, configuration numbers and per-configuration numbers must equal the stored ones after the documented reduction. In a quarter of the cases the same paths first hold another data set that is read (state between calls). Round 7: range-like irregular configuration lists on disk and in explicit selections.',
     note='Writers define the formats as readers and sample files agree on them; F-C17-4 is a recorded finding.')
 CHECKS['C18'] = dict(
     technique='fault injection by exhaustive enumeration of truncation offsets of generated files; oracle: exception or exact prefix',
     level='fault_enumeration', design='DESIGN.md 4/C18',
     text='For every file family of C17 and for json.gz / dobs xml.gz / pobs xml.gz / csv.gz archives: truncate one file at byte offsets (quick: all offsets of header, first and last two records plus a '
-         'sample; thorough: every offset of every file) and require an exception or exactly the observables of the complete records before the cut; archives must always raise.',
+         'sample; thorough: every offset of every file) and require an exception or exactly the observables of the complete records before the cut; archives must always raise. Round 7: read_pbp files as a further family (beyond the formats listed in C17).',
     note='A record whose used numbers are complete although an unused trailing block is cut is accepted.')
 CHECKS['C19'] = dict(
     technique='property-based testing (Hypothesis): independent value(error) reader in exact rational arithmetic as oracle; equalities for flags, priors and scalar views',
     level='exploration', design='DESIGN.md 4/C19',
     text='Values and errors over 30 decades with carry / power-of-ten / tie families, significance 1-6, flags, CObs: the printed string re-read with Fractions recovers value and error within half a '
          'unit of the last digit, digit counts and shared decimal place, flags affect only the leading character, prior parser and fits with string priors agree exactly, error-free observables print '
-         'the plain value, comparisons / float / is_zero_within_error / Corr.plottable use exactly value and error.',
+         'the plain value, comparisons / float / is_zero_within_error / Corr.plottable use exactly value and error. Round 7: plottable() again after the timeslice observables were re-analysed with other parameters.',
     note='is_zero_within_error in the numerically-zero regime (|value| < 1e-10) is documented library behaviour and only judged one-sidedly.')
 CHECKS['C20'] = dict(
     technique='exhaustive enumeration of the finite tables plus property-based testing (Hypothesis) of special-function derivatives against scipy and RefObs.combine',
     level='exploration', design='DESIGN.md 4/C20',
     text='Complete: Clifford algebra / hermiticity / gamma5 for all index pairs, all 16 Grid tags (+ near-miss tags must raise), all tuples of {0..4}^3 and {0..4}^4 against the inversion-count sign '
-         '(tuples outside the domain must raise). Generated: K_n for n=-6..6 and x in (0.05,20) plain and inside composite expressions, 30 re-exported special functions inside their domains. Entire functions at an operand whose central value is exactly 0.0; logsumexp with weights; K_n of an array used further inside the function.',
+         '(tuples outside the domain must raise). Generated: K_n for n=-6..6 and x in (0.05,20) plain and inside composite expressions, 30 re-exported special functions inside their domains. Entire functions at an operand whose central value is exactly 0.0; logsumexp with weights; K_n of an array used further inside the function. Round 7: multigammaln of an array argument.',
     note='Table parts are exhaustive (EXHAUSTIVE in the module); the special-function part samples.')
 
 CHECKS['C07'] = dict(
@@ -139,7 +139,7 @@ CHECKS['C07'] = dict(
     text='Linear-basis models with 1-4 parameters, 1-2 abscissa dimensions, 1-3 data sets sharing parameters (list and dictionary call forms, independent insertion orders), data on related '
          'layouts with cross- and autocorrelation, priors as list / dict / Obs / string, correlated fits with estimated or supplied inverse Cholesky factor, LM / migrad / Nelder-Mead / Powell, '
          'autograd and num_grad, Corr.fit ranges: parameters equal (A^T W A + P)^-1 (A^T W y + P pi) in value, every fluctuation and gradient; chi-square, dof, p-value, Hotelling t2 and '
-         'chi2/chi2_exp recomputed from their definitions; permutation invariance. Fits chained in one process with identical prior strings (a parameter of the earlier fit as datum of the later) against GLS with fresh independent prior inputs.',
+         'chi2/chi2_exp recomputed from their definitions; permutation invariance. Fits chained in one process with identical prior strings (a parameter of the earlier fit as datum of the later) against GLS with fresh independent prior inputs. Round 7: priors of every form through Corr.fit.',
     note='Value tolerance is the stopping accuracy of each minimiser in units of sigma_p; fluctuations 1e-9. F-C07-1 is a recorded finding.')
 CHECKS['C08'] = dict(
     technique='property-based testing (Hypothesis): stationarity and implicit-function sensitivities from an independent second-order jet implementation (vlib/fit08.py); metamorphic finite-difference re-fits',
